@@ -271,7 +271,7 @@ def dnf_form(e, worst):
     elif k == "not":
         n, c = dnf_form(e[1], worst)
         # every condition inverts to one conjunct (a protocol condition to one with 3, a sequence of l to l)
-        r = (min(10 ** 9, max(c, 1) ** n) if n else 0, max(n, 3))
+        r = ((10 ** 9 if (n > 40 and c > 1) else min(10 ** 9, max(c, 1) ** n)) if n else 0, max(n, 3))
     else:
         fs = [f for f in (dnf_form(c, worst) for c in e[1]) if f[0]]
         if not fs:
@@ -287,6 +287,57 @@ def dnf_form(e, worst):
             r = (n, cc)
     worst[0] = max(worst[0], r[0])
     return r
+
+
+def g_simple(e):
+    if e[0] in ("not", "then"):
+        return False
+    return e[0] == "atom" or all(g_simple(c) for c in e[1])
+
+
+def g_wf(e, tail=True):
+    """the fragment in which NOT inside a sequence has an unambiguous meaning (same predicate as vWf in the
+    harness, which decides; this one only steers the generator)"""
+    if e[0] == "atom":
+        return True
+    if e[0] == "not":
+        return g_wf(e[1], True) and (tail or g_simple(e[1]))
+    if e[0] == "then":
+        return all(g_wf(c, tail and i == len(e[1]) - 1) for i, c in enumerate(e[1]))
+    if e[0] == "and" and not tail and not all(g_nothen(c) for c in e[1]):
+        return False
+    return all(g_wf(c, tail) for c in e[1])
+
+
+def g_nothen(e):
+    if e[0] == "atom":
+        return True
+    if e[0] == "not":
+        return g_nothen(e[1])
+    return e[0] != "then" and all(g_nothen(c) for c in e[1])
+
+
+def g_seq(rng, depth):
+    """sequences of groups of payload filters, negated ones included (regime seq)"""
+    def lit():
+        a = ("atom", g_data(rng)) if rng.random() < 0.85 else ("atom", g_tag(rng))
+        return ("not", a) if rng.random() < 0.4 else a
+
+    def group(d):
+        r = rng.random()
+        if d <= 0 or r < 0.4:
+            return lit()
+        if r < 0.7:
+            return ("and", [group(d - 1) for _ in range(rng.choice([2, 2, 3]))])
+        if r < 0.85:
+            return ("or", [group(d - 1) for _ in range(2)])
+        return ("then", [group(d - 1) for _ in range(rng.choice([2, 3]))])
+    e = ("then", [group(depth - 1) for _ in range(rng.choice([2, 3, 3, 4]))])
+    if rng.random() < 0.2:
+        e = ("not", e)
+    if rng.random() < 0.2:
+        e = ("and", [e, lit()])
+    return e
 
 
 def max_cost(e):
@@ -359,10 +410,13 @@ def classify(r, m, have_model):
         return "impl", "panic: " + r["panic"]
     if "impl" not in r:
         return None, "rejected" if (r.get("err") or r.get("derr")) else "unsupported"
+    if not r.get("wf", True):
+        # outside the fragment where NOT inside a sequence has a defined meaning (notes/C03.md): not judged
+        return None, "gap_differs" if r["impl"] != r["sem"] else "gap_agrees"
     if r["impl"] != r["sem"]:
         return "impl", "normal form and text as written disagree on %d of %d valuations" % (
             sum(a != b for a, b in zip(r["impl"], r["sem"])), len(r["sem"]))
-    if r.get("impl2") and r["impl2"] != r["impl"]:
+    if r.get("impl2") and r["impl2"] != r.get("impl1c"):
         return "impl", "parsing the same text twice gives different meanings"
     if r["impossible"] and "1" in r["sem"]:
         return "impl", "reported impossible but satisfiable"
@@ -403,7 +457,7 @@ def minimise(tree, seed, nvals, exe, have_model, kind):
 
 MAXDNF = 150  # generated expressions keep every intermediate normal form below this many conjuncts
 
-REGIMES = [("easy", 0.34), ("data", 0.22), ("mixed", 0.2), ("vars", 0.16), ("subq", 0.08)]
+REGIMES = [("easy", 0.3), ("data", 0.14), ("seq", 0.14), ("mixed", 0.17), ("vars", 0.14), ("subq", 0.08), ("negseq", 0.03)]
 
 
 def main(tier, seed, replay=None):
@@ -415,7 +469,7 @@ def main(tier, seed, replay=None):
     if have_model:
         exe, _ = build_model(PROP, EXTRACT, os.path.join(ROOT, "ocaml/c03"), MODEL_DEPS)
     rng = random.Random(seed)
-    ncases = 1500 if tier == "quick" else 40000
+    ncases = int(os.environ.get("VERIF_NCASES", 4000 if tier == "quick" else 60000))
     nvals = 48 if tier == "quick" else 96
     trees, texts, regimes = [], [], []
     cdir = os.path.join(ROOT, "corpus", PROP)
@@ -440,15 +494,20 @@ def main(tier, seed, replay=None):
                     reg = name
                     break
             depth = rng.choice([1, 2, 2, 3, 3, 4])
-            tr = g_expr(rng, depth, reg)
-            while max_cost(tr) > MAXDNF:
-                tr = g_expr(rng, depth, reg)
+            greg = "mixed" if reg == "negseq" else reg
+            gen = (lambda: g_seq(rng, min(max(depth, 2), 3))) if reg == "seq" else (lambda: g_expr(rng, depth, greg))
+            tr = gen()
+            while max_cost(tr) > MAXDNF or g_wf(tr) != (reg != "negseq"):
+                if reg == "negseq":
+                    depth = max(depth, 3)
+                tr = gen()
             trees.append(tr)
             texts.append(render(tr, rng))
             regimes.append(reg)
     res, ml, note = run_cases(texts, "main", seed, nvals, exe, keep_vals=bool(replay))
     nviol = 0
-    stats = {"ok": 0, "rejected": 0, "unsupported": 0}
+    stats = {"ok": 0, "rejected": 0, "unsupported": 0, "gap_differs": 0, "gap_agrees": 0}
+    gap_examples = []
     per_regime = {}
     seml_diff = 0
     evals = 0
@@ -459,6 +518,8 @@ def main(tier, seed, replay=None):
         k, why = classify(r, ml.get(i), have_model)
         if k is None:
             stats[why] = stats.get(why, 0) + 1
+            if why == "gap_differs" and len(gap_examples) < 5:
+                gap_examples.append({"query": t, "normal_form": r["norm"][:400], "impl": r["impl"], "sem": r["sem"]})
             if why == "ok":
                 evals += len(r["sem"])
                 per_regime[regimes[i]] = per_regime.get(regimes[i], 0) + 1
@@ -534,12 +595,18 @@ def main(tier, seed, replay=None):
         "per_regime_accepted": per_regime,
         "model_in_loop": bool(have_model),
         "lookahead_reading_differs_cases": seml_diff,
+        "outside_unambiguous_fragment": {"cases": stats["gap_differs"] + stats["gap_agrees"], "normal_form_differs_from_reference_reading": stats["gap_differs"],
+                                         "note": "a NOT whose operand contains NOT/THEN and that is followed by THEN: meaning not defined by the documentation, not judged (notes/C03.md)",
+                                         "examples": gap_examples},
         "samples": [sample],
         "disagreements": nviol,
         "failing_cases": len(failing),
     })
     known, fixed = known_findings(PROP)
     cov["fixed_findings"] = fixed
+    if stats["gap_differs"] and any(k.get("id") == "negated-group-in-sequence" for k in known):
+        print("KNOWN-FINDING: property=C03 id=negated-group-in-sequence %d generated queries with a negated group followed by THEN are normalised to something else than the reference reading, e.g. %s" % (
+            stats["gap_differs"], json.dumps(gap_examples[0]["query"]) if gap_examples else "-"), flush=True)
     write_evidence(PROP, tier, seed, cov,
                    ["well-formed = accepted by the participle grammar and the value sub-parsers (library code)",
                     "a valuation fixes one stream per sub-query name; payload matching is an arbitrary deterministic next-match oracle",
